@@ -71,6 +71,16 @@ fn main() {
         };
         let mut regs: Vec<HintPointerVec> = Vec::new();
         let mut outs: Vec<String> = Vec::new();
+        let show_regs = |regs: &Vec<HintPointerVec>| {
+            if regs.is_empty() {
+                "-".to_string()
+            } else {
+                regs.iter().map(show_vec).collect::<Vec<_>>().join("/")
+            }
+        };
+        let show_outs = |outs: &Vec<String>| if outs.is_empty() { "-".to_string() } else { outs.join(",") };
+        // a panic inside an operation is reported together with the outcomes before it
+        let done = guarded(|| {
         for tok in &f[3..] {
             let p: Vec<&str> = tok.split(':').collect();
             let w = wopt.as_mut().unwrap();
@@ -255,18 +265,20 @@ fn main() {
             };
             outs.push(o);
         }
-        let regs_s = if regs.is_empty() {
-            "-".to_string()
-        } else {
-            regs.iter().map(show_vec).collect::<Vec<_>>().join("/")
-        };
-        let ops_s = if outs.is_empty() { "-".to_string() } else { outs.join(",") };
+        });
+        let regs_s = show_regs(&regs);
+        let ops_s = show_outs(&outs);
+        if done.is_none() {
+            return format!("ops={ops_s};regs={regs_s};panic");
+        }
         match wopt.take() {
-            Some(w) => {
-                let len = w.finish();
-                let bytes = unsafe { &*raw };
-                format!("ops={ops_s};regs={regs_s};len={len};buf={}", hex(bytes))
-            }
+            Some(w) => match guarded(|| w.finish()) {
+                Some(len) => {
+                    let bytes = unsafe { &*raw };
+                    format!("ops={ops_s};regs={regs_s};len={len};buf={}", hex(bytes))
+                }
+                None => format!("ops={ops_s};regs={regs_s};panic"),
+            },
             None => format!("ops={ops_s};regs={regs_s};len=dead;buf=-"),
         }
     });
